@@ -18,6 +18,14 @@ ASSUMPTIONS = ['alphabet: printable ASCII 32..126 (under it \\d and [a-zA-Z] coi
                'numeric components are unbounded mathematical integers (Python int)']
 OUT = 'version strings longer than the stated lengths, non-ASCII digits/letters, search_version()'
 
+MANIFEST = dict(
+    text='Bounded symbolic decision: for ALL pairs of version strings up to the stated lengths over printable ASCII (not a sample), every comparison of the real '
+         'Version class agrees with an independent reference order and satisfies the order axioms; Range algebra is decided over unbounded integer end points. '
+         'Right level: the property is a universally quantified statement over strings whose interesting cases (digit/letter boundaries, prefixes, leading zeros) are '
+         'found by the code\'s own branches; outside the length bound nothing is claimed.',
+    note='Trusted: the symx engine (validated on every run by re-running sampled path witnesses natively), z3, the reference comparator (20 lines, from the statement). '
+         'Bounds: pairs len<=3 (quick) / <=4 (thorough), triples len<=2/3, constraint lists <=2/3 over {0-9,a,b,.}; ASCII only.')
+
 U = None
 
 
@@ -233,7 +241,7 @@ def obligations(tier):
     out.append(Obligation('range-algebra', ob_range(), dict(endpoints='unbounded ints', shapes='all 4x4 min/max presence, all flags'),
                           labels=('always-true', 'always-false', 'always-none')))
     for n in (1, 2) if tier == 'quick' else (1, 2, 3):
-        lv = 2 if n < 3 else 1
+        lv = 2 if (n == 1 or (n == 2 and tier == 'thorough')) else 1
         out.append(Obligation('check-to-range[%d]' % n, ob_checks(n, lv, 2), dict(checks=n, version_len=lv, x_len=2, alphabet='0-9ab.'), labels=('done',)))
     out.append(Obligation('condition-with-min', ob_condmin(2, 2, 2), dict(lens=2, alphabet='0-9ab.'), labels=('true', 'false')))
     return out
